@@ -46,6 +46,15 @@ pub struct Orchestrator { pub routed: Ghost<Seq<Seq<Msg>>>, pub timed: Ghost<Seq
 impl Orchestrator {
   // the rest of the real type's read-only API (any answer: peers come and go)
   #[verifier::external_body] pub fn has_connections(&self) -> bool { unimplemented!() }
+  #[verifier::external_body]
+  pub async fn wait_for_connection(&mut self) -> (r: Result<(), ZmqError>)
+    ensures final(self).routed == old(self).routed, final(self).timed == old(self).timed, final(self).conn_sndtimeo_positive() == old(self).conn_sndtimeo_positive()
+  { unimplemented!() }
+  // R8: tokio_timeout(d, self.outgoing_orchestrator.wait_for_connection()).await -- a timed wait for a first peer (routes nothing)
+  #[verifier::external_body]
+  pub async fn verif_timed_wait_for_connection(&mut self, d: Duration) -> (r: Result<Result<(), ZmqError>, Elapsed>)
+    ensures final(self).routed == old(self).routed, final(self).timed == old(self).timed, final(self).conn_sndtimeo_positive() == old(self).conn_sndtimeo_positive()
+  { unimplemented!() }
   pub uninterp spec fn conn_sndtimeo_positive(&self) -> bool;   // the SNDTIMEO the connections were created with is positive
   #[verifier::external_body]
   pub async fn route_message(&mut self, fb: FrameBatch, wait_for_peer: bool) -> (r: Result<(), (FrameBatch, ZmqError)>)
@@ -166,10 +175,13 @@ parts = [
      ensures=[
        ("C01+C02:the_batch_is_handed_to_the_router_path_exactly_once_unchanged", "final(self).outgoing_orchestrator.routed@ == old(self).outgoing_orchestrator.routed@.push(fb@) && final(self).pending_send_parts == old(self).pending_send_parts"),
        ("C14:timeout_only_after_a_timed_wait_of_sndtimeo", "r matches Err(ZmqError::Timeout) ==> (sndtimeo matches Some(d) && d.ns() > 0 && final(self).outgoing_orchestrator.timed@.last() == Some(d.ns())) || old(self).outgoing_orchestrator.conn_sndtimeo_positive()"),
+       ("C14:a_positive_sndtimeo_bounds_the_whole_route_including_the_wait_for_room",
+        "sndtimeo matches Some(d) ==> (d.ns() > 0 ==> final(self).outgoing_orchestrator.timed@.last() == Some(d.ns()))"),
        ("C14:zero_or_infinite_sndtimeo_is_an_untimed_call", "!(sndtimeo matches Some(d) && d.ns() > 0) ==> final(self).outgoing_orchestrator.timed@.last() is None && (r matches Err(ZmqError::Timeout) ==> old(self).outgoing_orchestrator.conn_sndtimeo_positive())"),
      ],
      extra=[("R8", re.compile(r"tokio_timeout\(\s*d,\s*self\.outgoing_orchestrator\.route_message\(fb, wait_for_peer\),\s*\)\s*\.await", re.S),
-             "self.outgoing_orchestrator.verif_timed_route(d, fb, wait_for_peer).await", 1)]),
+             "self.outgoing_orchestrator.verif_timed_route(d, fb, wait_for_peer).await", 1),
+            ("R8", re.compile(r"tokio_timeout\(\s*d,\s*self\.outgoing_orchestrator\.wait_for_connection\(\),?\s*\)\s*\.await", re.S), "self.outgoing_orchestrator.verif_timed_wait_for_connection(d).await", "*")]),
   # frame-by-frame sending: the frames of one message are held back and routed together, as ONE batch, to ONE peer
   Fn(PUSH, "send", impl=PUSH_IMPL, emit_impl="impl PushSocket", sig_sub=SELF_MUT,
      ensures=[
@@ -270,7 +282,8 @@ parts = [
                "&& (i == payload_frames_vec@.len() - 1 ==> !r@[i + 1].flags.more && r@[i + 1].flags.command == payload_frames_vec@[i].flags.command)")],
      extra=[("R8", "let id_bytes = Bytes::copy_from_slice(identity_blob.as_ref());", "", 1), ("R8", "Msg::from_bytes(id_bytes)", "identity_blob.verif_to_msg()", 1)]),
   # ---------------- REP: wire assembly of the reply (routing envelope of the request ++ reply frames), then normalisation
-  Region(REP, "rep_assemble_reply", "send_multipart", r"let mut zmtp_wire_frames = FrameBatch::with_capacity\(", r"match conn_iface\.send_multipart\(zmtp_wire_frames\)\.await \{",
+  # (region = everything between the end of the connection lookup block and the hand-over to the connection)
+  Region(REP, "rep_assemble_reply", "send_multipart", r"(?<=\n    \};\n\n)    let (?!conn_iface)", r"match conn_iface\.send_multipart\(zmtp_wire_frames\)\.await \{",
          sig="fn rep_assemble_reply(&self, peer_to_reply_to: PeerInfo, user_payload_frames: FrameBatch) -> (r: Result<FrameBatch, ZmqError>)",
          tail="Ok(zmtp_wire_frames)", impl=r"impl\s+ISocket\s+for\s+RepSocket\b", emit_impl="impl RepSocket", attrs=ATTRS,
          # established by the take region (unit reqrep: accepted_reply_fits_one_message_with_its_envelope)
